@@ -161,7 +161,8 @@ def check(ctx):
         if m is None:
             run.error('C20.same-entity', MOD, cls.name, meth, f'{cls.name}.{meth} vanished')
             return None
-        r = ev.eval_entry(m)
+        # `self` is an instance of THIS class (the method may be inherited from a base that leaves hooks to its subclasses)
+        r = ev.eval_entry(m, {'self': ev.param_sym('self', ('cls', cls.fq))} if m.params() and m.params()[0].arg == 'self' else None)
         if not isinstance(r, TStr):
             run.error('C20.same-entity', MOD, f'{cls.name}.{meth}', meth, f'not a text template: {r!r}'[:160])
             return None
@@ -302,7 +303,15 @@ def check(ctx):
                 f'the definition renders {leaked}, which belong to the declaration only')
         # ---- C20.def-only: scope qualification ---------------------------------------------------------------------------------
         bad = []
+        # a constructor / destructor cannot exist without an owning struct or class when __post_init__ refuses anything else:
+        # the renderings for "no scope" are then not renderings of any object
+        post_ = prog.lookup_method(cls, '__post_init__')
+        scope_required = cname != 'Function' and post_ is not None and any(
+            isinstance(st_, ast.If) and any(isinstance(x_, ast.Raise) for x_ in st_.body) and 'self.scope' in ast.unparse(st_.test) and
+            'isinstance' in ast.unparse(st_.test) for st_ in post_.node.body)
         for c, v in fvars:
+            if scope_required and c.get('is_none(<self.scope>)') is True:
+                continue
             toks = lex(v)
             txt = [tok_text(t) for t in toks]
             if cname == 'Function':
@@ -406,11 +415,18 @@ def check(ctx):
     n_r = 0
     for cls in prog.modules['dznpy.cpp_gen'].classes.values():
         for mname in ('__str__', 'as_decl', 'as_def'):
-            m = cls.methods.get(mname)
+            m = cls.methods.get(mname) or (prog.lookup_method(cls, mname) if not cls.name.startswith('_') else None)
             if m is None or mname == '__str__' and any(isinstance(x, ast.Raise) for x in m.node.body[:1]):
                 continue
             n_r += 1
-            touched = mut.mut_self.get(m.fq) or {}
+            touched = dict(mut.mut_self.get(m.fq) or {})
+            # an inherited render method that leaves the text to hook methods of this class: the hooks belong to the rendering
+            for x in iter_own_nodes(m.node):
+                if isinstance(x, ast.Call) and isinstance(x.func, ast.Attribute) and isinstance(x.func.value, ast.Name) and \
+                        x.func.value.id == 'self':
+                    h_ = prog.lookup_method(cls, x.func.attr)
+                    if h_ is not None and h_ is not m:
+                        touched.update(mut.mut_self.get(h_.fq) or {})
             run.add('C20.pure-render', MOD, f'{cls.name}.{mname}', f'{cls.name}.{mname}: mutation of self', not touched,
                     'rendering does not modify the building block' if not touched else
                     'rendering modifies the building block (' + '; '.join(sorted({' <- '.join(e.chain()[:2]) for e in touched.values()}))[:260]
